@@ -9,9 +9,15 @@ CLAIMS = {
  'C07': dict(cat='proof', ref='DESIGN.md 7 (C07)',
    text="Each matching rule of the statement is an ensures clause on getIndex / getSetIndex / getDataFrameIndex / getSampledIndex (extracted from src/Dimensions.cpp on every run); CBMC discharges them for all positions, all tick vectors up to 2^20 entries, all 64-bit label/row counts. Sampled axes: all positions on an enumerated grid of (interval, offset) constants - stated as such, not a proof over all intervals.",
    note=NOTE_COMMON + "Assumed contract of std::lower_bound. Premises: ticks strictly ascending, positions not NaN, |position| < 2^53 on integer axes. Sampled axis: grid of constants, not all intervals."),
+ 'C09': dict(cat='proof', ref='DESIGN.md 7 (C09), 12',
+   text="Kernel claim: the mode decisions of the open path are postconditions of map_file_mode, of two statement regions of the FileHDF5 constructor (mode forced to Overwrite for a missing path; H5Fopen RDONLY / RDWR vs H5Fcreate TRUNC, exactly one libhdf5 call), of File::open's ReadOnly-on-missing-path guard, of setCreatedAt/setUpdatedAt (written iff missing) and of checkHeader (header defects refused).",
+   note=NOTE_COMMON + "Kernel only: that libhdf5 honours H5F_ACC_RDONLY (never changes a byte), that mutating calls fail on a read-only handle and that TRUNC empties the file are assumed, not verified. fileExists / boost::filesystem::exists are one ghost constant."),
  'C10': dict(cat='proof', ref='DESIGN.md 7 (C10)',
-   text="canRead/canWrite and all six comparison operators of FormatVersion (include/nix/Version.hpp) carry the statement as postconditions over all int triples; order laws (irreflexive, transitive, trichotomy, derived operators) and the read/write gate are lemmas over those contracts.",
-   note=NOTE_COMMON + "Not covered yet: FileHDF5::checkHeader / the Force flag in the open path, and that libhdf5 returns the stored version attribute."),
+   text="The gate in the open path (FileHDF5::checkHeader, the constructor's Force handling) accepts exactly the triples the statement allows, for all modes and both Force values; canRead/canWrite and all six comparison operators of FormatVersion (include/nix/Version.hpp) carry the statement as postconditions over all int triples; order laws (irreflexive, transitive, trichotomy, derived operators) and the read/write gate are lemmas over those contracts.",
+   note=NOTE_COMMON + "checkHeader and the constructor statement applying the Force flag are under contract with the header attributes as ghost inputs (every content libhdf5 can report); that libhdf5 returns the stored attributes is assumed. The library version is left arbitrary."),
+ 'C16': dict(cat='proof', ref='DESIGN.md 7 (C16), 12',
+   text="Kernel claim: per function under contract, CBMC's built-in checks (bounds, pointer validity, pointer arithmetic, signed overflow, float-to-integer conversion, division by zero, shifts) are discharged under type-invariant-only preconditions, i.e. for every argument a C++ caller can form the function returns or raises. Covers the position-to-index functions for all doubles incl. NaN/inf/1e300 and any tick vector.",
+   note=NOTE_COMMON + "Kernel only: absence of UB for sequences of API calls, handle lifetimes after delete/close and libhdf5 internals are not covered."),
  'C17': dict(cat='proof', ref='DESIGN.md 7 (C17)',
    text="NDSize element-wise comparisons and arithmetic, the DataView constructor window test, transform_coordinates and ioRead/ioWrite carry the window sentences of the statement (inside the window, at origin+offset, error without transfer) as postconditions with window arithmetic in the integers (no wrap-around).",
    note=NOTE_COMMON + "NDSize rank <= 32 (H5S_MAX_RANK); ioRead/ioWrite: ranks 0..4 in the quick tier, 0..32 in the thorough tier. DataArray handle abstracted to its extent; the back-end transfer is a ghost record (libhdf5 not verified). Not covered yet: dataSlice / position-based slicing."),
@@ -26,7 +32,7 @@ NA = {
  'C20': "breadth-first search over std::list/std::function on HDF5-backed handles; not extractable without writing a model",
 }
 PENDING = {k: "check not built yet (planned kernel claim, DESIGN.md section 7)" for k in
-           ['C01', 'C05', 'C06', 'C09', 'C11', 'C13', 'C14', 'C16', 'C18', 'C19']}
+           ['C01', 'C05', 'C06', 'C11', 'C13', 'C14', 'C18', 'C19']}
 def main():
     extra = json.load(open(os.path.join(ROOT, 'vlib', 'claims_extra.json'))) if os.path.exists(os.path.join(ROOT, 'vlib', 'claims_extra.json')) else {}
     checks = []
